@@ -1111,6 +1111,12 @@ Proof.
     destruct (code =? unexpectedErr); [discriminate|].
     eapply cls_finish; [|exact H|assumption..].
     apply cls_quiet. eapply quiet_same_r; [apply rt_after_rpc | exact H1].
+  - (* append request cut short *)
+    apply obind_inv in H. destruct H as ([code s1] & H1 & H).
+    apply quiet_on_append_request in H1.
+    destruct (code =? unexpectedErr); [discriminate|].
+    eapply cls_finish; [|exact H|assumption..].
+    apply cls_quiet. eapply quiet_same_r; [apply rt_after_rpc | exact H1].
   - (* install snapshot *)
     apply obind_inv in H. destruct H as ([code s1] & H1 & H).
     apply quiet_on_install_snap_request in H1.
